@@ -87,10 +87,20 @@ def run(rep, tier, rng):
         for d in algs.dims_for(al, 16 if quick else 49):
             seed = rng.randrange(10 ** 6)
             gu = vg.UnitaryVectors(d, A, rng=np.random.RandomState(seed))
+            gu_same = vg.UnitaryVectors(d, A, rng=np.random.RandomState(seed))
+            gu_other = vg.UnitaryVectors(d, A, rng=np.random.RandomState(seed + 1))
             for j in range(2):
                 v = next(gu)
+                v_same, v_other = next(gu_same), next(gu_other)
+                rep.count("reproducibility")
+                if not np.array_equal(v, v_same):
+                    rep.violation(f"UnitaryVectors({d}, {al}) is not reproducible from an equal random state", {"case": {"alg": al, "d": d, "seed": seed},
+                                  "python": "assert False, 'generator ignores the random state it was given'\n"})
+                if d > 1 and np.array_equal(v, v_other):
+                    rep.violation(f"UnitaryVectors({d}, {al}): a different seed gave the same vector", {"case": {"alg": al, "d": d, "seed": seed}})
                 add(f"rel_unitary {al} {algs.enc_vec(v)} {REL}", {"op": "unitary-generator", "alg": al, "d": d, "v": v.tolist()}, ("unitary", al, d, seed, j))
-            for props in ([], ["unitary"], ["positive"], ["unitary", "positive"], ["bogus"], ["unitary", "bogus"]):
+            for props in ([], ["unitary"], ["positive"], ["unitary", "positive"], ["bogus"], ["unitary", "bogus"], ["positive", "bogus"],
+                          ["unitary", "positive", "bogus"]):
                 with warnings.catch_warnings(record=True) as rec:
                     warnings.simplefilter("always")
                     gen_box = []
@@ -114,6 +124,14 @@ def run(rep, tier, rng):
                     continue
                 v = np.asarray(o[1])
                 base = {"alg": al, "d": d, "props": props, "v": v.tolist()}
+                # reproducible from the random state it was given
+                with warnings.catch_warnings():
+                    warnings.simplefilter("ignore")
+                    o_same = c.outcome(lambda: next(vg.VectorsWithProperties(d, set(props), A, rng=np.random.RandomState(seed))))
+                rep.count("reproducibility")
+                if o_same[0] != "ok" or not np.array_equal(np.asarray(o_same[1]), v):
+                    rep.violation(f"VectorsWithProperties({props}) for {al} (d={d}) is not reproducible from an equal random state",
+                                  {"case": {"alg": al, "d": d, "props": props, "seed": seed}, "python": "assert False, 'generator ignores the random state it was given'\n"})
                 if "unitary" in props and not (al != "AHrr" and "positive" in props):
                     add(f"rel_unitary {al} {algs.enc_vec(v)} {REL}", dict(base, op="property-unitary"), ("p-unitary", al, d, tuple(props)))
                 if "positive" in props and al == "AHrr":
